@@ -70,6 +70,8 @@ class BytesIO:
 
     def seek(self, pos, whence=0):
         if whence == 0:
+            if bool(pos < 0):
+                raise ValueError('negative seek value %r' % (pos,))
             self.pos = pos
         elif whence == 1:
             self.pos = self.pos + pos
@@ -81,7 +83,7 @@ class BytesIO:
         return self.buf
 
     def getbuffer(self):
-        raise Unsupported('BytesIO.getbuffer')
+        return MemView(self.buf)
 
     def close(self):
         self.closed = True
@@ -94,6 +96,50 @@ class BytesIO:
 
     def remaining(self):
         return self._len() - self.pos
+
+
+class MemView:
+    """memoryview over the buffer of a BytesIO model: slicing with Python's slice semantics (negative and out-of-range
+    bounds, symbolic bounds), len, tobytes, context manager; str(view, enc) / bytes(view) go through to_rope()"""
+
+    def __init__(self, data):
+        self.data = data
+
+    def __enter__(self):
+        return self
+
+    def __exit__(self, *a):
+        return False
+
+    def release(self):
+        pass
+
+    def to_rope(self):
+        return self.data
+
+    def tobytes(self):
+        return self.data
+
+    def __sxlen__(self):
+        return rope.sx_len(self.data)
+
+    def __len__(self):
+        return core.concrete(rope.sx_len(self.data))
+
+    def __getitem__(self, k):
+        if isinstance(k, slice):
+            if k.step not in (None, 1):
+                raise Unsupported('memoryview slice with a step')
+            L = rope.sx_len(self.data)
+            a, b = rope._norm_bounds(L, k.start, k.stop)
+            return MemView(rope.slice_rope(self.data, a, b))
+        return self.data[k]
+
+    def decode(self, enc='utf-8', errors='strict'):
+        d = self.data
+        if isinstance(d, bytes):
+            return d.decode(enc, errors)
+        return d.decode(enc, errors)
 
 
 module = types.ModuleType('io')
